@@ -319,8 +319,11 @@ def run_paging(case):
         events.extend(out.getvalue().split("\n")[:-1]); out.seek(0); out.truncate()
         events.append(-1)
     scr._ask_user_input_blocking = ask
-    with contextlib.redirect_stdout(out):
-        scr._print_widget(_W())
+    try:
+        with contextlib.redirect_stdout(out):
+            scr._print_widget(_W())
+    except Exception as e:          # the pager itself failed on this content
+        return {"err": err_name(e)}
     events.extend(out.getvalue().split("\n")[:-1])
     return events
 
